@@ -1145,13 +1145,22 @@ def exit_digests(fn):
     names = {n.value.id for n in rets if isinstance(n.value, ast.Name)}
     out = set()
     for n in rets:
-        out.add(stmt_blind(ast.Expr(value=n.value if n.value is not None else ast.Constant(value=None)), loc)[0])
+        for v in exit_arms(n.value if n.value is not None else ast.Constant(value=None)):
+            out.add(stmt_blind(ast.Expr(value=v), loc)[0])
     if not terminates(fn.body):          # falling off the end is `return None`
         out.add(stmt_blind(ast.Expr(value=ast.Constant(value=None)), loc)[0])
     for n in _own_nodes(fn):
         if isinstance(n, ast.Assign) and len(n.targets) == 1 and isinstance(n.targets[0], ast.Name) and n.targets[0].id in names:
-            out.add(stmt_blind(ast.Expr(value=n.value), loc)[0])
+            for v in exit_arms(n.value):
+                out.add(stmt_blind(ast.Expr(value=v), loc)[0])
     return sorted(out)
+
+
+def exit_arms(v):
+    """the alternatives of a (nested) conditional expression: `a if c else b` can exit with a or with b"""
+    if isinstance(v, ast.IfExp):
+        return exit_arms(v.body) + exit_arms(v.orelse)
+    return [v]
 
 
 def _own_nodes(fn):
